@@ -182,6 +182,8 @@ def check_case(case):
             if old is not None and old != e[1 - pos] and old != r[2] and len(m.links_of[old]) >= 2:
                 order_exercised = True
         if name == "unlink":
+            if r[3] is None:
+                classes.add("unlink-destroy-omitted")
             rem = m.joining(r[1], r[2])
             if rem and (len(m.links_of[r[1]]) > len(rem) or len(m.links_of[r[2]]) > len(rem)):
                 order_exercised = True
